@@ -1,7 +1,8 @@
 """C03 - HTTP routing.  spec/Router.tla (reference matcher, model-checked), spec/RouterGen.tla
 (TLC enumerates route tables and evaluates the reference for every request of a fixed universe)
 -> replay on router.NewRouter() (public API) and on api.Server (engine.bindRoutes + not-found
-handler)."""
+handler).  spec/RouterMount.tla + RouterMountGen.tla: server-level wiring - the caller's []Route values mounted
+with AddRoutes / AddRoute and WithPrefix options, the same values on two servers in a row."""
 import json, os
 from vlib import core
 
@@ -12,6 +13,7 @@ RUN = "^TestVerifC03$"
 EPKG = "./api"
 EOVERLAY = dict(LIB, **{"api/zz_verif_c03_test.go": "c03/engine_test.go"})
 ERUN = "^TestVerifC03Engine$"
+MRUN = "^TestVerifC03Mount$"
 
 META = dict(
     text="TLA+ reference router (spec/Router.tla): patterns are sequences of literal / ':name' segments, "
@@ -23,14 +25,26 @@ META = dict(
          "predicted answer of every request; the Go driver registers each table on router.NewRouter(), sends "
          "every request through ServeHTTP and compares Handle errors, the handler that ran, pathvar.Vars, status "
          "and the Allow set. A sample of the tables is also replayed through api.Server "
-         "(AddRoutes/bindRoutes, WithNotFoundHandler).",
+         "(AddRoutes/bindRoutes, WithNotFoundHandler). Server-level wiring (spec/RouterMount.tla): the caller's "
+         "[]Route values are values - a mount (AddRoutes of a slice, AddRoute of one element, each with zero, one or "
+         "two WithPrefix options) reads them and contributes prefix+path of every route, so the table is "
+         "Router!Register's rule applied to the mounted routes in mount order (MountUnion, MountedServed, NothingElse, "
+         "SlicesAreValues checked by TLC on every generated program). RouterMountGen.tla enumerates every mount "
+         "program (free order: one slice under two prefixes in both orders, with and without prefix, an element next "
+         "to its slice, nested and parameter groups) and the driver executes each on two fresh api.Server in a row "
+         "with the same Go slice values, binds with engine.bindRoutes and compares the bind error and the answer to "
+         "every request (keys C03:mount:*, second server C03:mount:reuse:*).",
     note="Trusted: TLC, net/http/httptest. Not generated: patterns repeating a parameter name (statement silent on "
          "which occurrence wins), unclean pattern spellings at registration, '..' in request paths, "
          "SetNotAllowedHandler/CORS. Supported methods = the seven accepted by validMethod (DELETE, GET, HEAD, OPTIONS, PATCH, POST, PUT; all of them registered and requested in the methods7 families); unsupported method = 'FOO', and in the verbs families 18 names: the lower-case "
          "and capitalised spelling of each supported verb, '', CONNECT, TRACE, FOO, each registered with '/', '/a', '/:x' "
          "before and after accepted routes of all seven verbs (rejected at Handle, absent from every later answer). "
          "Requests use upper-case verbs and FOO only. Bounds: literals {a,b}, request tokens {a,b,c}, "
-         "depth <= 3, <= 3 routes exhaustive (4 in thorough), <= 8-10 routes over 3 methods in simulation.",
+         "depth <= 3, <= 3 routes exhaustive (4 in thorough), <= 8-10 routes over 3 methods in simulation. "
+         "Mount families: slice routes over {/, /a, /:x} x {GET, POST} (quick: 4 of the 6), slices of 1-2 routes, "
+         "groups /a, /b, /a/b, /:v, pairs of different WithPrefix over /a, /b; every program of <= 2 mounts (3 in "
+         "thorough), random programs of 5 mounts over two slices of <= 3 routes. WithPrefix groups are clean absolute texts; the "
+         "other RouteOptions (jwt, signature, timeout, priority, max bytes) are not mounted.",
     technique="TLA+ reference matcher + TLC-enumerated (table, request) cases replayed on the real router",
     design="4/C03")
 
@@ -38,7 +52,10 @@ FINISH = dict(rule="cases = complete TLC enumeration (BFS; registrations in cano
                    "multiset of registrations appears once) of route tables up to MaxRoutes registrations over the "
                    "bounded pattern universe, each with the specification's answer to every request of the request "
                    "universe, plus seeded TLC simulation of larger tables registered in random order; every "
-                   "registration and every request of every table is compared with the prediction")
+                   "registration and every request of every table is compared with the prediction; mount families = "
+                   "complete TLC enumeration of the mount programs (slices x sequences of AddRoutes/AddRoute x WithPrefix "
+                   "option lists) up to MaxMounts mounts plus seeded simulation of longer programs, each executed on two "
+                   "servers sharing the caller's slices")
 
 PAR3 = '<<{"x"},{"y"},{"z"}>>'
 
@@ -90,6 +107,89 @@ PLANS = {
     "sim12": consts(GPP, '{"FOO"}', REQ4, '{"a","b"}', '<<{"x","w"},{"y","v"},{"z"}>>', 3, '{"a","b","c"}', '{"a","b"}',
                     12, ordered=False, badpats=BADP, emitall=False),
 }
+
+
+# Server-level wiring (spec/RouterMount.tla): the caller's []Route values mounted with AddRoutes / AddRoute and
+# zero, one or two WithPrefix options.
+def mconsts(sliceroutes, slicelen, nslices, groups, nest, maxmounts, emitall=True, lits='{"a","b"}', depth=3,
+            toks='{"a","b","c"}', dirt="{}"):
+    return dict(Methods=GP, BadMethods="{}", ReqMethods=GPP, Lits=lits, ParNames=PAR3, MaxDepth=depth, ReqToks=toks,
+                DirtToks=dirt, SliceRoutes=sliceroutes, MaxSliceLen=slicelen, NSlices=nslices, Groups=groups,
+                NestGroups=nest, MaxMounts=maxmounts, EmitAll=emitall, Rounds=2)
+
+
+def sroutes(*rs):
+    return "{" + ", ".join('[m |-> "%s", p |-> %s]' % (m, p) for m, p in rs) + "}"
+
+
+ROOT, PA, PB, PX, PAY = "<<>>", '<<Lit("a")>>', '<<Lit("b")>>', '<<Par("x")>>', '<<Lit("a"), Par("y")>>'
+# root, a literal and a parameter under GET, the literal under POST as well (405 / Allow across groups)
+SR4 = sroutes(("GET", ROOT), ("GET", PA), ("GET", PX), ("POST", PA))
+SR6 = sroutes(*[(m, p) for m in ("GET", "POST") for p in (ROOT, PA, PX)])
+SR8 = sroutes(*([(m, p) for m in ("GET", "POST") for p in (ROOT, PA, PX)] + [("GET", PB), ("POST", PAY)]))
+# groups: two literals, a two-segment literal group, a parameter group; nested options over the literal groups
+PRE4 = '{<<Lit("a")>>, <<Lit("b")>>, <<Lit("a"), Lit("b")>>, <<Par("v")>>}'
+NEST2 = '{<<Lit("a")>>, <<Lit("b")>>}'
+NEST3 = '{<<Lit("a")>>, <<Lit("b")>>, <<Par("v")>>}'
+MPLANS = {
+    # one slice of one or two routes, every program of up to two mounts (21 mount operations per step)
+    "mount2": mconsts(SR4, 2, 1, PRE4, NEST2, 2),
+    "mount2w": mconsts(SR6, 2, 1, PRE4, NEST2, 2),
+    # three mounts (a slice under two prefixes plus an element / the bare slice, all orders)
+    "mount3": mconsts(SR4, 2, 1, PRE4, NEST2, 3, emitall=False),
+    # random longer programs over two slices of up to three routes
+    "simmount": mconsts(SR8, 3, 2, PRE4, NEST3, 5, emitall=False, dirt='{"a"}'),
+    # model checking of the wiring rules themselves (every request of the universe per state)
+    "mc": mconsts(sroutes(("GET", ROOT), ("GET", PX), ("POST", PA)), 2, 1, '{<<Lit("a")>>, <<Lit("b")>>, <<Par("v")>>}',
+                  '{<<Lit("a")>>}', 2, toks='{"a","b"}', dirt='{"a"}'),
+}
+
+
+def mmc(ctx):
+    K = {k: v for k, v in MPLANS["mc"].items() if k not in ("MaxMounts", "EmitAll", "Rounds")}
+    cfg = core.render_cfg(spec="MSpec", constants=K, invariants=["MountUnion", "MountedServed", "NothingElse"],
+                          properties=["SlicesAreValues"], constraints=["Bound"])
+    ctx.tlc("RouterMount", cfg, constants=K, defs=dict(Bound="Len(groups) <= 2"), name="RouterMount-mc", workers=6,
+            timeout=600)
+
+
+def mgen(ctx, name, plan, simulate=None, depth=None, maxmounts=None):
+    K = dict(MPLANS[plan])
+    if maxmounts is not None:
+        K["MaxMounts"] = maxmounts
+    # the rules over the whole request universe are checked on every state of the BFS runs; the random programs
+    # keep the cheap ones
+    inv = ["TableIsAccepted", "MountUnion"] + ([] if simulate else ["MountedServed", "NothingElse"]) + ["Emit"]
+    cfg = core.render_cfg(spec="GSpec", constants=K, invariants=inv, properties=["SlicesAreValues"])
+    r = ctx.tlc("RouterMountGen", cfg, constants=K, name=name, simulate=simulate, depth=depth, timeout=1500,
+                workers=(1 if simulate else 6))
+    header = [p for p in r.printed if p.startswith('{"reqs"')]
+    cases = [p for p in r.printed if not p.startswith('{"reqs"')]
+    if len(header) < 1:
+        raise core.Infra("RouterMountGen %s printed no request universe" % name)
+    if not cases:
+        raise core.Infra("RouterMountGen %s printed no case" % name)
+    return header[0], cases
+
+
+def mount(ctx, ebinp, name, plan, **kw):
+    only = os.environ.get("VERIF_PLANS")
+    if only and name.split("-")[0] not in only.split(","):
+        return
+    header, cases = mgen(ctx, name, plan, **kw)
+    path, cnt = ctx.write_cases(name + ".ndjson", [header] + cases)
+    ctx.samples += core.sample_of(cases[len(cases) // 2:], 1)
+    nreq = len(json.loads(header)["reqs"])
+    ctx.notes.setdefault("pairs", {})[name] = dict(mount_programs=len(cases), requests_per_server=nreq, servers=2)
+    cnt, _ = ctx.replay(EPKG, EOVERLAY, MRUN, path, label=name + "-mount", env=dict(VERIF_METHODS="GET,POST"), shards=8,
+                        binp=ebinp)
+    stats = {k: cnt.get(k, 0) for k in ("shared_slice_programs", "served_programs", "rejecting_programs")}
+    ctx.notes.setdefault("mount", {})[name] = stats
+    # vacuity guard (only meaningful when the run found no disagreement): the family must contain programs that
+    # mount one slice several times and are served, and programs whose binding is rejected
+    if not ctx.disagreements and not (stats["shared_slice_programs"] and stats["rejecting_programs"]):
+        raise core.Infra("mount family %s is vacuous: %r" % (name, stats))
+    return cnt
 
 
 def mc(ctx):
@@ -150,8 +250,14 @@ def run(ctx):
         "strings, as the router's trees and its request lookup do); only error / no error is compared for Handle",
         "engine tier: api.Server with Config{} and the default middleware chain; bindRoutes stops at the first "
         "rejected route, so tables containing a rejected registration are compared on the bind error only",
+        "mount families: the registered pattern of a mounted route is the WithPrefix groups (last option outermost) "
+        "followed by the route's path, groups being clean absolute paths; a caller's []Route value is never changed by "
+        "mounting it (the same values are mounted again on a second server and must give the same table); handlers are "
+        "shared by all mounts of a slice element, the binding seen identifies the registration",
     ]
     mc(ctx)
+    if not ctx.quick:
+        mmc(ctx)  # the quick tier checks the same invariants on every generated program (mgen)
     binp = ctx.go_build(PKG, OVERLAY, name="c03drv")
     ebinp = ctx.go_build(EPKG, EOVERLAY, name="c03eng")
     ctx.exhaustive = True
@@ -162,6 +268,8 @@ def run(ctx):
         one(ctx, binp, ebinp, "methods7", "methods7", 4)
         one(ctx, binp, ebinp, "verbs", "verbs", 4)
         one(ctx, binp, ebinp, "sim8", "sim8", 2, simulate=1500, depth=9)
+        mount(ctx, ebinp, "mount2", "mount2")
+        mount(ctx, ebinp, "simmount", "simmount", simulate=200, depth=6)
     else:
         one(ctx, binp, ebinp, "deep3", "deep3", 10)
         for i, ch in enumerate(["1..4", "5..9", "10..16", "17..40"]):
@@ -174,10 +282,24 @@ def run(ctx):
         one(ctx, binp, ebinp, "simverbs", "simverbs", 10, simulate=5000, depth=9)
         one(ctx, binp, ebinp, "sim8", "sim8", 10, simulate=20000, depth=9)
         one(ctx, binp, ebinp, "sim12", "sim12", 10, simulate=10000, depth=13)
+        mount(ctx, ebinp, "mount2w", "mount2w")
+        mount(ctx, ebinp, "mount3", "mount3")
+        mount(ctx, ebinp, "simmount", "simmount", simulate=2000, depth=6)
 
 
 def replay(ctx, rp):
     label = rp.get("label") or "deep3"
+    if label.endswith("-mount"):
+        plan = label[:-6].split("-")[0]
+        if plan not in MPLANS:
+            raise core.Infra("replay file names unknown mount plan %r" % plan)
+        K = dict(MPLANS[plan], MaxMounts=0, EmitAll=True, NSlices=1, MaxSliceLen=1)
+        cfg = core.render_cfg(spec="GSpec", constants=K, invariants=["Emit"])
+        r = ctx.tlc("RouterMountGen", cfg, constants=K, name="header", workers=1)
+        header = [p for p in r.printed if p.startswith('{"reqs"')][0]
+        path, _ = ctx.write_cases("replay.ndjson", [header, rp["case"]])
+        ctx.replay(EPKG, EOVERLAY, MRUN, path, label="replay", env=dict(VERIF_METHODS="GET,POST", VERIF_BOTH=1))
+        return
     engine = label.endswith("-engine")
     name = label[:-7] if engine else label
     plan = name.split("-")[0]
